@@ -26,6 +26,8 @@ fn value_pool() -> Vec<Val> {
         Val::F32(1.5f32.to_bits()), Val::F32(f32::NAN.to_bits()), Val::F64(2.25f64.to_bits()), Val::F64(f64::INFINITY.to_bits()), Val::F64(1e300f64.to_bits()),
         Val::Str("1".into()), Val::Str("x".into()), Val::Str("".into()), Val::Bytes(vec![1, 2]), Val::Bytes(vec![]), Val::None, Val::Unit, Val::UnitStruct,
         Val::Some(Box::new(Val::Int(IK::I32, 7))), Val::Newtype(Box::new(Val::Bool(true))), Val::Seq(vec![]), Val::Seq(vec![Val::Int(IK::U8, 1), Val::Int(IK::U8, 2)]), Val::Seq(vec![Val::Int(IK::I32, 256)]),
+        // element counts around a fixed size of 2: one and two too many (n + 1 is the count an off-by-one guard lets through)
+        Val::Seq(vec![Val::Int(IK::U8, 1), Val::Int(IK::U8, 2), Val::Int(IK::U8, 3)]), Val::Seq((1..=4).map(|i| Val::Int(IK::U8, i)).collect()), Val::Tuple((1..=3).map(|i| Val::Int(IK::U8, i)).collect()), Val::Bytes(vec![1, 2, 3]), Val::Bytes(vec![1]),
         Val::Tuple(vec![Val::Int(IK::U8, 1)]), Val::Map(vec![]), Val::Struct(vec![], 0), Val::Struct(vec![("a".into(), Val::Bool(true))], 0),
         Val::UnitVariant(0, "A".into()), Val::UnitVariant(1, "B".into()), Val::UnitVariant(5, "Z".into()), Val::NewtypeVariant(0, "A".into(), Box::new(Val::Int(IK::I32, 1)))]);
     pool
@@ -92,6 +94,20 @@ pub fn run(ctx: &mut Ctx) {
                     ser_case(ctx, std::slice::from_ref(f), &[Val::Struct(vec![("c".into(), wrap(Val::Int(w, z)))], 0)], "nested_cell", None);
                     wrap_last(ctx, from);
                 }
+            }
+        }
+    }
+    // fixed-size lists below a list: a row with n - 1, n + 1 or n + 2 elements among rows with n (below a list the arrays stay
+    // structurally valid when an element too many slips through, so only the content tells)
+    {
+        let inner = mk("element", DataType::FixedSizeList(Box::new(mk("element", DataType::Int32, false)), 2), false);
+        let f = mk("c", DataType::LargeList(Box::new(inner)), false);
+        let row = |ns: &[usize]| -> Val { let mut k = 0i128; Val::Seq(ns.iter().map(|n| Val::Seq((0..*n).map(|_| { k += 1; Val::Int(IK::I32, k) }).collect())).collect()) };
+        for ns in [vec![2usize, 2], vec![3, 3], vec![2, 3, 2], vec![1, 2], vec![2, 4], vec![3], vec![2, 2, 3]] {
+            for second in [vec![2usize], vec![]] {
+                let from = ctx.cases.len();
+                ser_case(ctx, std::slice::from_ref(&f), &[Val::Struct(vec![("c".into(), row(&ns))], 0), Val::Struct(vec![("c".into(), row(&second))], 0)], "nested_fixed_size", None);
+                wrap_last(ctx, from);
             }
         }
     }
